@@ -13,6 +13,12 @@ CLAIMED = {
          "Trusted: Coq kernel/VM, hand transcription of the three regexps and of strings/strconv helpers, fmt/ParseFloat oracles (exact on a class, OutOfModel elsewhere), harness. Thunk data and user-registered top-level functions are outside the model. Print Assumptions: only primitive float/int63 declarations.", None),
  "C17": ("Coq theorems over ARBITRARY byte strings and lexical documents of any length/nesting: DoubleQuotesToBackTick turns exactly the double-quoted identifiers into backtick identifiers and copies every byte of string literals / backtick identifiers; FixIdiomaticArray is fully characterised ([ -> ARRAY( , ] -> ) outside quotes iff balanced, else error - never a panic); the two rewrites commute; Wrapped = {root: input}; for ANY parser/engine the PG+idiomatic spelling under the options runs the same text as the canonical spelling. Tie: rewritten text vs. model and spec on exhaustive short strings, random documents and bytes, plus metamorphic Exec comparison on the real engine for all 8 option sets.",
          "Trusted: Coq kernel/VM, hand-written scanner models of processors.go, the lexical-document spec (Spec/LexDoc.v), harness. The parser/engine is an arbitrary function in C17_meaning / C17_wrapped. 14 theorems closed under the global context, 2 list only PrimFloat.float.", None),
+ "C01": ("Coq theorems for all tables and all predicates of any depth over the stated grammar: on in-scope rows the evaluator returns exactly the two-valued SQL meaning (pred_sem), the row loop is literally `filter`, NOT IN = complement of IN (lists and subqueries), BETWEEN = inclusive range, p and NOT p partition the table, LIKE = classical wildcard matching where only % and _ are special; lifted to run_select. Tie: ~900 (quick) generated table x predicate cases per run through the real engine and the model, exact sequence of surviving rows.",
+         "Trusted: Coq kernel/VM, the hand-written engine model (Model/Eval.v, Exec.v, Like.v), sqlparser grammar (oracle), regexp/ToLower semantics as stated in Model/Like.v, harness. Print Assumptions: only primitive float/int63 declarations.", None),
+ "C05": ("Coq theorems: for every slice capacity >= length and every (limit, offset) the window is exactly firstn/skipn of the sorted sequence - never a panic, an error or padding (pinned arithmetic refuted by witness); the ORDER BY comparator is a strict weak order on one-kind key columns incl. NULL handling in both directions; any output satisfying the sort.Slice contract (sorted permutation) respects the lexicographic key order with per-key direction and puts NULL keys last; the executable sort meets the contract; lifted to run_select. Tie: exhaustive (limit, offset) sweep in {none,0..8}^2 x both spellings x spare capacity, plus random tables/keys/windows through the real engine and the model (key-tuple sequence + row multiset).",
+         "Trusted: Coq kernel/VM, engine model, sort.Slice as an oracle with the stated contract, NumLaws premise on doubles (no NaN), harness. Print Assumptions: only primitive float/int63 declarations.", None),
+ "C03": ("Coq theorems for all tables / grouping columns / select lists: the engine's ordered linear-scan grouping equals the textbook group_by (every row in exactly one group, same group iff equal on every grouping column, members in source order, groups in first-appearance order with no iteration-order parameter, conservation law), every aggregate is the textbook fold over exactly its group's members (whole-table path: over the rows that passed WHERE; COUNT 0 / NULLs on the empty set), calls are independent, HAVING = filter over groups, WHERE-then-group composition on run_select. Tie: generated tables x GROUP BY / HAVING / multi-aggregate select lists through the real engine and the model, every query repeated 6x (24x thorough) to detect order instability.",
+         "Trusted: Coq kernel/VM, engine model, harness. Float equality/order laws are premises proved from the stdlib's FloatAxioms (eqb_spec, ltb_spec - listed by Print Assumptions for C03_float_laws_hold); all other theorems list only primitive float/int63 declarations.", None),
 }
 
 NOT_YET = "check not built yet in this round (work in progress; planned as Coq proof + correspondence per DESIGN.md)"
